@@ -8,8 +8,8 @@
 
 const char *verif_property = "C04";
 const char *verif_class_names[] = { "app_ref_outlives_peer", "closed_retry", "destroy_with_live_connections", "disconnect_inside_msg_process", "disconnect_inside_created",
-	"disconnect_inside_closed", "accept_refused", "abrupt_client_close", "list_walk", "rate_limit_change", "connect_abandoned", "destroy_with_retry_job_pending", "shm", "socket", "send_inside_callback", "send_on_closing_connection", NULL };
-enum { K_REFOUT, K_RETRY, K_DESTROYLIVE, K_DISCMSG, K_DISCCREATED, K_DISCCLOSED, K_REFUSED, K_ABRUPT, K_WALK, K_RATE, K_ABANDON, K_DESTROYJOB, K_SHM, K_SOCK, K_SENDCB, K_SENDCLOSING };
+	"disconnect_inside_closed", "accept_refused", "abrupt_client_close", "list_walk", "rate_limit_change", "connect_abandoned", "destroy_with_retry_job_pending", "shm", "socket", "send_inside_callback", "send_on_closing_connection", "list_walk_or_rate_limit_inside_callback", NULL };
+enum { K_REFOUT, K_RETRY, K_DESTROYLIVE, K_DISCMSG, K_DISCCREATED, K_DISCCLOSED, K_REFUSED, K_ABRUPT, K_WALK, K_RATE, K_ABANDON, K_DESTROYJOB, K_SHM, K_SOCK, K_SENDCB, K_SENDCLOSING, K_WALKCB };
 const char *verif_rule =
 	"case = transport and an op list: client connect (complete / abandoned after the first half), client disconnect, abrupt client close, requests, server-side disconnect from outside and from "
 	"inside each callback, extra connection references held across later ops, closed returning non-zero r times (re-run through job_add, run when the case says), accept refusing, rate-limit "
@@ -34,6 +34,31 @@ struct cli { qb_ipcc_connection_t *c; bool half; int fd; };
 static std::vector<cli> CL;
 
 static mconn *find_live(qb_ipcs_connection_t *c) { for (auto it = MC.rbegin(); it != MC.rend(); ++it) if (it->p == c && it->st != ST_DESTROYED) return &*it; return NULL; }
+
+/* iterating the connection list (the documented way) or changing the rate limit - both touch every listed connection - from inside a callback */
+static void walk_inside(const char *where, qb_ipcs_connection_t *self)
+{
+	if (service_destroyed) return;
+	unsigned k = vr_u8(&V) % 6;
+	if (k == 0) {
+		int n = 0; bool saw_self = false;
+		qb_ipcs_connection_t *c = qb_ipcs_connection_first_get(S);
+		while (c && n < 100) {
+			qb_ipcs_connection_t *nx = qb_ipcs_connection_next_get(S, c);
+			if (c == self) saw_self = true;
+			if (!find_live(c) && !R->fail) VFAIL(R, "list-has-dead-connection", "the connection list (walked from inside %s) contains a connection that was already destroyed or never accepted", where);
+			qb_ipcs_connection_unref(c);
+			c = nx; n++;
+		}
+		VLOG(R, "    list walk inside %s: %d connection(s)%s\n", where, n, saw_self ? " (incl. this one)" : "");
+		VCLASS(R, K_WALKCB);
+	} else if (k == 1) {
+		static const enum qb_ipcs_rate_limit rl[] = { QB_IPCS_RATE_NORMAL, QB_IPCS_RATE_FAST, QB_IPCS_RATE_SLOW };
+		qb_ipcs_request_rate_limit(S, rl[vr_u8(&V) % 3]);
+		VLOG(R, "    rate limit changed inside %s\n", where);
+		VCLASS(R, K_WALKCB);
+	}
+}
 
 /* what the application does from inside a callback: any combination of taking a reference, sending, disconnecting, dropping a reference (in that order) */
 static void maybe_disconnect_inside(mconn *m, int where)
@@ -96,7 +121,7 @@ static int32_t s_msg(qb_ipcs_connection_t *c, void *data, size_t size)
 	VLOG(R, "  [cb] msg_process conn %d\n", m ? m->id : -1);
 	if (!m) VFAIL(R, "msg-after-destroyed", "msg_process for a connection that was already destroyed (or never accepted)");
 	else if (m->st != ST_CREATED) VFAIL(R, "msg-order", "msg_process for conn %d in state %d (only between created and closed)", m->id, m->st);
-	else { m->msgs++; maybe_disconnect_inside(m, K_DISCMSG); }
+	else { m->msgs++; walk_inside("msg_process", c); maybe_disconnect_inside(m, K_DISCMSG); }
 	in_callback--;
 	return 0;
 }
@@ -112,6 +137,7 @@ static int32_t s_closed(qb_ipcs_connection_t *c)
 		m->st = ST_CLOSING; m->closed_calls++;
 		if (m->closed_retries_left > 0) { m->closed_retries_left--; rc = -EAGAIN; VCLASS(R, K_RETRY); nontriv = true; }
 		else m->closed_final = true;
+		walk_inside("connection_closed", c);
 		maybe_disconnect_inside(m, K_DISCCLOSED);
 	}
 	VLOG(R, "  [cb] closed conn %d -> %d\n", m ? m->id : -1, rc);
@@ -131,6 +157,7 @@ static void s_destroyed(qb_ipcs_connection_t *c)
 		else if (m->st == ST_CREATED && !m->disc_in_created) VFAIL(R, "destroyed-without-closed", "connection_destroyed for conn %d which was created but never closed", m->id);
 		else if (m->st == ST_CLOSING && !m->closed_final) VFAIL(R, "destroyed-before-closed-done", "connection_destroyed for conn %d although connection_closed has not returned 0 yet", m->id);
 		m->st = ST_DESTROYED;
+		walk_inside("connection_destroyed", c);
 	}
 	in_callback--;
 }
